@@ -415,3 +415,23 @@ pub fn c20(seed: u64, budget: u64) -> FOut {
     out.extra.push(("codec_cases".into(), J::n(cases)));
     out
 }
+
+/// C07's quantifier covers serde codecs too: the feed sweep alone, merged into C07's falsifier output
+pub fn c07_serde(seed: u64, rounds: u64, out: &mut FOut) {
+    let mut g = G::new(seed ^ 0xC07_5E);
+    let mut cases = 0u64;
+    let mut sub = FOut::default();
+    for _ in 0..rounds {
+        feed_sweep(BincodeCodec(bincode::config::standard()), "bincode", &mut g, &mut sub, &mut cases);
+        feed_sweep(PostcardCodec, "postcard", &mut g, &mut sub, &mut cases);
+    }
+    for h in sub.hits {
+        if h.signature.contains("panicked") {
+            continue; // a panic is C06 / C20 territory: no malformed datagram was emitted
+        }
+        out.hit(&h.signature.replace("C20:", "C07:serde:"), h.detail);
+    }
+    out.distinct.extend(sub.distinct);
+    out.extra.push(("serde_codec_datagrams_checked".into(), J::n(cases)));
+    out.rule.push_str("; plus (serde codecs) a real Foca<SId, BincodeCodec / PostcardCodec> holding 2..25 members answers an Announce and gossips under 76 packet sizes from 'header barely fits' upwards: every datagram within the limit and exactly header + count + count decodable members");
+}
